@@ -12,6 +12,7 @@ A scope maps the variables / functions that are visible at a point to their type
 generator deliberately reads names that are bound *elsewhere* in the program but not visible here
 (expected: null) - that is what exposes leaks.
 """
+import re
 
 BINOPS = {'add': '+', 'sub': '-', 'mul': '*', 'eq': '=', 'ne': '!=', 'lt': '<', 'le': '<=', 'gt': '>', 'ge': '>=',
           'and': 'and', 'or': 'or'}
@@ -20,12 +21,83 @@ LAMBDA_FUNCS = ('select', 'where', 'selectMany', 'orderBy', 'orderByDescending',
                 'indexWhere', 'toDict', 'aggregate', 'any', 'all')
 CONSTRUCTS = ('lambda', 'let', '->', 'def', 'with', 'unpack', 'select', 'where', 'dict', 'list', 'index', 'member')
 NAMES = ('x', 'y', 'k', 'v')
+# Names are DATA: a variable / keyword / function / key is the sequence of characters that was written, nothing else.
+# These are names that a naming convention (snake_case -> camelCase, trailing underscores stripped), a case fold or a
+# sloppy lexer would rewrite, next to the names they would be rewritten INTO:
+ODD_NAMES = ('my_var', 'myVar', 'x1', 'x_1', 'a_', 'a', 'a__b', 'a_b', 'aB', 'ab', '_x', 'A', 'X', 'x_', 'len', 'select',
+             'v_', 'k_1', 'k1', 'kV', 'k_v', 'my_var_', '_', 'myvar', 'MyVar', 'y__', '_y', 'true_', 'Null', 'let', 'it_em')
+RELATED_PAIRS = (('my_var', 'myVar'), ('x1', 'x_1'), ('a_', 'a'), ('a__b', 'a_b'), ('a_b', 'aB'), ('aB', 'ab'), ('A', 'a'),
+                 ('_x', 'x'), ('x_', 'x'), ('k_v', 'kV'), ('k_1', 'k1'), ('my_var_', 'my_var'), ('myVar', 'myvar'),
+                 ('MyVar', 'myVar'), ('y__', 'y_'), ('_', '_1'), ('len', 'len_'), ('v', 'V'), ('it_em', 'itEm'))
+# names no keyword can spell (they reach a context through unpack('..'), whose names are strings): the language reference
+# says that variable names "may start with digit, any number of underscores and even be an empty string"
+LEX_NAMES = ('__x', '1a', '2', '', '_', '$y', '__')
 FUNC_NAMES = ('f', 'g', 'h')
+# function names: equal up to trailing underscores (documented: "all trailing underscores are stripped from the names"),
+# otherwise data
+FUNC_ODD = ('f_', 'F', 'fF', 'f1', 'g__', 'G', 'hH', 'fg', 'gh_')
+# ... and names that CamelCaseConvention would rewrite (see notes/C04.md, known finding def-name-translated)
+FUNC_SNAKE = ('my_f', 'f_1', 'g_h', 'h_x_', '_f_g')
 STRS = ('a', 'b', 'x', 'yz', 'n')
 REC_ITEM = ('rec', (('n', 'str'), ('v', 'int'), ('tags', ('list', 'int'))))
 REC_SUB = ('rec', (('a', 'int'), ('xs', ('list', 'int'))))
+REC_ODD = ('rec', (('my_key', 'int'), ('myKey', 'int'), ('k_', 'str'), ('K', 'int')))
 DOC_FIELDS = (('a', 'int'), ('b', 'int'), ('s', 'str'), ('flag', 'bool'), ('xs', ('list', 'int')),
-              ('ws', ('list', 'str')), ('items', ('list', REC_ITEM)), ('sub', REC_SUB), ('opt', 'any'))
+              ('ws', ('list', 'str')), ('items', ('list', REC_ITEM)), ('sub', REC_SUB), ('opt', 'any'),
+              ('unit_price', 'int'), ('unitPrice', 'int'), ('a_', 'int'), ('A', 'int'), ('odd', REC_ODD),
+              ('odds', ('list', REC_ODD)), ('len', 'int'))
+KEYWORD_RE = re.compile(r'(?!__)[^\W\d]\w*\Z')
+
+
+def var_of(name):
+    """the variable a binding under `name` is read back as: `$name` (a name that carries its `$` keeps it; the empty
+    name is `$1`)"""
+    if not name.startswith('$'):
+        name = '$' + name
+    return '$1' if name == '$' else name
+
+
+def name_arg(name):
+    """a name as an argument: a keyword where a keyword can spell it (mostly), else a string literal"""
+    return ['kw', name] if is_keyword(name) else ['lit', name]
+
+
+def is_keyword(s):
+    return bool(KEYWORD_RE.match(s)) and s not in RESERVED
+
+
+def to_camel(s):
+    """what CamelCaseConvention would make of the name (transcribed; only used to pick RELATIVES of a name)"""
+    out, i = [], 0
+    while i < len(s):
+        if i > 0 and s[i] == '_' and i + 1 < len(s) and (s[i + 1].isalnum() or s[i + 1] == '_'):
+            out.append(s[i + 1].upper())
+            i += 2
+        else:
+            out.append(s[i])
+            i += 1
+    return ''.join(out)
+
+
+def to_snake(s):
+    return ''.join(('_' + c.lower()) if (c.isupper() and i) else c for i, c in enumerate(s))
+
+
+def relatives(name):
+    """other names that some normalisation would identify with `name` (and that a keyword can spell)"""
+    c = [to_camel(name), to_camel(name.rstrip('_')), to_snake(name), name.rstrip('_'), name + '_', name.lower(),
+         name.upper(), name.capitalize(), name.replace('_', ''), '_' + name, name.lstrip('_'), name.replace('_', '__'),
+         name.replace('__', '_'), name[:1].lower() + name[1:], name + '1', name + '_1']
+    for a, b in RELATED_PAIRS:
+        if name == a:
+            c.append(b)
+        if name == b:
+            c.append(a)
+    out = []
+    for x in c:
+        if x != name and x not in out and is_keyword(x):
+            out.append(x)
+    return out
 
 
 def is_list(t):
@@ -106,6 +178,7 @@ class Gen:
         self.rng = rng
         self.max_depth = max_depth
         self.pool = set()                  # every variable name bound somewhere in the program
+        self.fpool = set()                 # every function name defined somewhere in the program
         self.nfun = 0
 
     # ------------------------------------------------------------ helpers
@@ -139,9 +212,47 @@ class Gen:
         return out
 
     def new_name(self):
-        n = self.rng.choice(NAMES)
+        """a name for a binding: a plain one, an odd one, or - with preference once something is bound - a RELATIVE of
+        a name bound elsewhere in the program (what a normalisation of names would merge)"""
+        r = self.rng
+        roll = r.random()
+        bound = sorted(n[1:] for n in self.pool if is_keyword(n[1:]))
+        n = None
+        if roll < 0.22 and bound:
+            rel = relatives(r.choice(bound))
+            if rel:
+                n = r.choice(rel)
+        elif roll < 0.45:
+            n = r.choice(ODD_NAMES)
+        if n is None:
+            n = r.choice(NAMES)
         self.pool.add('$' + n)
         return n
+
+    def name_pair(self):
+        """two distinct names for a scenario: plain ones, or a pair that some normalisation would identify"""
+        r = self.rng
+        if r.random() < 0.45:
+            a, b = r.choice(RELATED_PAIRS)
+            if r.random() < 0.5:
+                a, b = b, a
+        else:
+            a, b = r.sample(NAMES, 2)
+        self.pool.update(('$' + a, '$' + b))
+        return a, b
+
+    def fun_name(self):
+        r = self.rng
+        roll = r.random()
+        if roll < 0.68:
+            name = FUNC_NAMES[self.nfun % len(FUNC_NAMES)]
+        elif roll < 0.90:
+            name = r.choice(FUNC_ODD)
+        else:
+            name = r.choice(FUNC_SNAKE)
+        self.nfun += 1
+        self.fpool.add(name)
+        return name
 
     def lit(self, t):
         r = self.rng
@@ -164,7 +275,7 @@ class Gen:
         r = self.rng
         opts = ['int', 'int', 'str', 'bool', ('list', 'int'), ('list', 'int'), ('list', 'str')]
         if not simple:
-            opts += [('list', REC_ITEM), REC_SUB, REC_ITEM, 'any']
+            opts += [('list', REC_ITEM), REC_SUB, REC_ITEM, 'any', REC_ODD, ('list', REC_ODD)]
         return r.choice(opts)
 
     # ------------------------------------------------------------ expressions
@@ -202,7 +313,8 @@ class Gen:
                      (1, lambda: self.with_lambda('indexWhere', self.some_list(sc, d), 'bool', sc, d)),
                      (1, lambda: self.aggregate(sc, d)),
                      (1, lambda: ['un', 'neg', self.expr('int', sc, d - 1)]),
-                     (1, lambda: ['method', self.expr(self.rec_with(sc, 'int'), sc, d - 1), 'get', [['kw', 'zz'], self.expr('int', sc, d - 1)], []])]
+                     (1, lambda: ['method', self.expr(self.rec_with(sc, 'int'), sc, d - 1), 'get', [['kw', self.missing_key()], self.expr('int', sc, d - 1)], []]),
+                     (0.3, lambda: ['member', self.expr(REC_ODD, sc, d - 1), r.choice(('my_key', 'myKey', 'K', self.missing_key()))])]
         elif t == 'str':
             opts += [(2, lambda: ['bin', 'add', self.expr('str', sc, d - 1), self.expr('str', sc, d - 1)]),
                      (1, lambda: ['method', self.expr(('list', 'str'), sc, d - 1), 'sum', [['lit', '']], []]),
@@ -265,6 +377,12 @@ class Gen:
         """a name that is bound somewhere in the program (or a neighbouring positional name) whether
         or not it is visible here"""
         r = self.rng
+        if self.pool and r.random() < 0.3:
+            # a RELATIVE of a bound name: bound under `my_var`, read as `$myVar` / `$my_var_` / `$MY_VAR` ...
+            n = r.choice(sorted(self.pool))[1:]
+            rel = relatives(n) if is_keyword(n) else []
+            if rel:
+                return ['var', '$' + r.choice(rel)]
         cands = sorted(self.pool | {'$1', '$2', '$3', '$0'} | {'$' + n for n in NAMES[:2]})
         return ['var', r.choice(cands)]
 
@@ -272,6 +390,10 @@ class Gen:
         """a call of a function name that is defined somewhere in the program, visible or not"""
         r = self.rng
         name = r.choice(FUNC_NAMES)
+        if self.fpool and r.random() < 0.4:
+            # a relative of a defined name: `f_` is `f` (trailing underscores do not count), `F` / `my_f` vs `myF` are not
+            base = r.choice(sorted(self.fpool))
+            name = r.choice([base] + relatives(base))
         if name in sc.funcs:
             return self.user_call((name, sc.funcs[name]), sc, d)
         return ['call', name, [self.expr('int', sc, d - 1) for _ in range(r.choice((0, 1)))], []]
@@ -283,14 +405,22 @@ class Gen:
         return ['method', e, 'toList', [], []]
 
     def rec_with(self, sc, ft):
-        return REC_SUB
+        return self.rng.choice((REC_SUB, REC_SUB, REC_ODD))
 
     def rec_list_with(self, el):
         if el == 'int':
-            return self.rng.choice(((REC_ITEM, 'v'), (REC_SUB, 'a')))
+            return self.rng.choice(((REC_ITEM, 'v'), (REC_SUB, 'a'), (REC_ODD, 'my_key'), (REC_ODD, 'myKey'), (REC_ODD, 'K')))
         if el == 'str':
-            return (REC_ITEM, 'n')
+            return self.rng.choice(((REC_ITEM, 'n'), (REC_ITEM, 'n'), (REC_ODD, 'k_')))
         return None
+
+    def missing_key(self):
+        """a key no record has - now and then one that a normalisation of names would find (`myKey_`, `my_Key`, `k`)"""
+        r = self.rng
+        if r.random() < 0.6:
+            return r.choice([x for f in ('my_key', 'myKey', 'k_', 'K', 'a', 'xs') for x in relatives(f)
+                             if x not in ('my_key', 'myKey', 'k_', 'K', 'a', 'xs')])
+        return 'zz'
 
     def scalar_field(self, rec):
         c = [ft for _, ft in rec[1] if ft in ('int', 'str')]
@@ -303,9 +433,10 @@ class Gen:
 
     def len_of(self, sc, d):
         e, _ = self.some_list(sc, d)
+        ln = 'len' if self.rng.random() < 0.95 else self.rng.choice(('len_', 'len__'))   # trailing underscores do not count
         if self.rng.random() < 0.3:
-            return ['call', 'len', [e], []]
-        return ['method', e, 'len', [], []]
+            return ['call', ln, [e], []]
+        return ['method', e, ln, [], []]
 
     def lam_scope(self, sc, *types):
         return sc.bind({'$%d' % (i + 1): t for i, t in enumerate(types)}, lam=True)
@@ -320,7 +451,7 @@ class Gen:
     def select_to(self, el, sc, d):
         e, src_el = self.some_list(sc, d)
         body = self.expr(el, self.lam_scope(sc, src_el), d - 1)
-        return ['method', e, 'select', [body], []]
+        return ['method', e, 'select' if self.rng.random() < 0.97 else 'select_', [body], []]
 
     def select_many(self, el, sc, d):
         e, src_el = self.some_list(sc, d)
@@ -382,14 +513,17 @@ class Gen:
             names = []
             while len(names) < len(tys):
                 nm = self.new_name()
-                if nm not in names:
+                if r.random() < 0.12:                     # names only a string can spell
+                    nm = r.choice(LEX_NAMES)
+                    self.pool.add(var_of(nm))
+                if var_of(nm) not in [var_of(x) for x in names]:
                     names.append(nm)
             src = ['list', [self.expr(ty, sc, d - 1) for ty in tys]]
             if r.random() < 0.12:                         # a length that need not fit
                 src = self.expr(('list', 'int'), sc, d - 1)
                 tys = ['int'] * len(tys)
-            binds = {'$' + nm: ty for nm, ty in zip(names, tys)}
-            return ['arrow', ['method', src, 'unpack', [['kw', nm] for nm in names], []], self.expr(t, sc.bind(binds), d - 1)]
+            binds = {var_of(nm): ty for nm, ty in zip(names, tys)}
+            return ['arrow', ['method', src, 'unpack', [name_arg(nm) for nm in names], []], self.expr(t, sc.bind(binds), d - 1)]
         if kind == 'unpackpos':
             tys = [self.some_type(True) for _ in range(r.choice((1, 2)))]
             src = ['list', [self.expr(ty, sc, d - 1) for ty in tys]]
@@ -397,8 +531,7 @@ class Gen:
             self.pool.update(binds)
             return ['arrow', ['method', src, 'unpack', [], []], self.expr(t, sc.bind(binds), d - 1)]
         if kind == 'def':
-            name = FUNC_NAMES[self.nfun % len(FUNC_NAMES)]
-            self.nfun += 1
+            name = self.fun_name()
             params = [self.some_type(True) for _ in range(r.choice((0, 1, 1, 2)))]
             ret = t if (r.random() < 0.6 and not is_rec(t)) else self.some_type(True)
             body_sc = self.lam_scope(sc, *params)          # the own name is visible too, but never called (no recursion)
@@ -417,11 +550,46 @@ class Gen:
         """shapes that put two scoping constructs into a particular relation, with random parts"""
         r = self.rng
         e = lambda t, s=sc, dd=d - 1: self.expr(t, s, dd)           # noqa: E731
-        nm, nm2 = r.sample(NAMES, 2)
-        self.pool.update(('$' + nm, '$' + nm2))
+        nm, nm2 = self.name_pair()
         x = ['var', '$' + nm]
+        x2 = ['var', '$' + nm2]
         xs = e(('list', 'int'))
-        k = r.randrange(14)
+        k = r.randrange(20)
+        if k == 14:     # names are data: two bindings whose names a normalisation would merge, and a third reading
+            third = r.choice(relatives(nm) or [nm2])
+            return ['arrow', ['call', 'let', [], [[['kw', nm], e('int')], [['kw', nm2], e('str')]]],
+                    ['list', [x, x2, ['var', '$' + third]]]]
+        if k == 15:     # ... the same for the named arguments of a def-ined function
+            body = ['list', [x, x2, self.var('$1')]]
+            calls = [['call', 'f', [], [[['kw', nm], e('int')]]],
+                     ['call', 'f', [], [[['kw', nm2], e('int')], [['kw', nm], e('str')]]],
+                     ['call', 'f', [e('int')], [[['kw', r.choice(relatives(nm2) or [nm])], e('int')]]]]
+            r.shuffle(calls)
+            return ['arrow', ['call', 'let', [], [[['kw', nm2], e('int')]]],
+                    ['arrow', ['call', 'def', [['kw', 'f'], body], []], ['list', calls[:r.choice((2, 3))]]]]
+        if k == 16:     # ... for the keys of a dict literal / dict(), read by member access (alone and mapped over a list)
+            mk = r.choice((lambda ps: ['map', ps], lambda ps: ['call', 'dict', [], ps]))
+            d1 = mk([[['kw', nm], e('int')], [['kw', nm2], e('int')]])
+            d2 = mk([[['kw', nm2], e('int')], [['kw', nm], e('int')]])
+            which = r.choice((nm, nm2))
+            return ['list', [['member', d1, which], ['member', ['list', [d1, d2]], r.choice((nm, nm2))],
+                             ['method', d2, 'get', [['kw', r.choice(relatives(which) or [which])], ['lit', 'none']], []]]]
+        if k == 17:     # ... for the names unpack() binds, shadowing a let of the related name
+            return ['arrow', ['call', 'let', [], [[['kw', nm], e('str')]]],
+                    ['arrow', ['method', ['list', [e('int'), e('int')]], 'unpack', [['kw', nm2], ['kw', r.choice(NAMES)]], []],
+                     ['list', [x, x2]]]]
+        if k == 18:     # ... for the names of def-ined functions (equal up to trailing underscores, otherwise data)
+            f1 = self.fun_name()
+            f2 = r.choice(relatives(f1) or ['g'])
+            self.fpool.add(f2)
+            tail = ['list', [['call', f1, [], []], ['call', r.choice((f2, f1 + '_', f1.rstrip('_') or f1)), [], []]]]
+            if r.random() < 0.5:
+                return ['arrow', ['call', 'def', [['kw', f1], e('int')], []], tail]
+            return ['arrow', ['call', 'def', [['kw', f1], e('int')], []],
+                    ['arrow', ['call', 'def', [['kw', f2], e('str')], []], tail]]
+        if k == 19:     # a lambda's own parameter names next to named variables: `$1` / `$` vs `$_1`, `$x1`
+            return ['arrow', ['call', 'let', [], [[['kw', r.choice(('_1', 'x1', '_', 'a1'))], e('str')]]],
+                    ['method', xs, 'select', [['list', [self.var('$1'), ['var', '$_1'], ['var', '$_'], ['var', '$x1']]]], []]]
         if k == 0:      # a binding made in one list element, read in the next
             return ['list', [['arrow', ['call', 'let', [], [[['kw', nm], e('int')]]], x], x, e('any')]]
         if k == 1:      # a binding made inside a lambda body, read by a later lambda and outside
@@ -458,7 +626,9 @@ class Gen:
             return ['list', [['member', items, f], ['method', items, 'select', [['member', self.var('$1'), f]], []]]]
         if k == 10:     # unpack then lambda
             return ['arrow', ['method', ['list', [e('int'), e('int')]], 'unpack', [['kw', nm], ['kw', nm2]], []],
-                    ['method', xs, 'where', [['bin', 'ge', self.var('$1'), x]], []]]
+                    ['method', xs, 'where', [['bin', 'ge', self.var('$1'), x]], []]] if r.random() < 0.7 else \
+                   ['arrow', ['method', ['list', [e('int'), e('int')]], 'unpack', [['kw', nm], ['kw', nm2]], []],
+                    ['list', [x, x2]]]
         if k == 12:     # several calls of one function with different argument lists
             body = ['list', [['var', '$1'], ['var', '$2'], x, self.var('$1')]]
             calls = [['call', 'f', [e('int'), e('str')], []], ['call', 'f', [e('int')], []],
@@ -672,8 +842,8 @@ def tags(e):
         out.append('->')
     if t == 'call' and e[1] in ('let', 'def', 'with'):
         out.append(e[1])
-    if t == 'method' and e[2] in ('unpack', 'select', 'where'):
-        out.append(e[2])
+    if t == 'method' and e[2].rstrip('_') in ('unpack', 'select', 'where'):
+        out.append(e[2].rstrip('_'))
     if t == 'map' or (t == 'call' and e[1] == 'dict'):
         out.append('dict')
     if t == 'list' or (t == 'call' and e[1] == 'list'):
@@ -687,7 +857,7 @@ def tags(e):
 
 def lambda_children(e):
     """indices (as paths) of the children that are lambda bodies"""
-    if e[0] == 'method' and e[2] in LAMBDA_FUNCS:
+    if e[0] == 'method' and e[2].rstrip('_') in LAMBDA_FUNCS:
         n = 1 if e[2] not in ('toDict',) else 2
         return {(3, i) for i in range(min(n, len(e[3])))}
     if e[0] == 'call' and e[1] in ('any', 'all') and len(e[2]) == 2:
@@ -725,6 +895,63 @@ def constructs(e, out=None):
     out[key] = out.get(key, 0) + 1
     for c, _ in children(e):
         constructs(c, out)
+    return out
+
+
+def name_class(n):
+    """what about a name a normalisation could rewrite"""
+    out = []
+    core = n.rstrip('_')
+    if n != core:
+        out.append('trailing-underscore')
+    if n.startswith('_'):
+        out.append('leading-underscore')
+    if re.search(r'(?!^)_\w', core):
+        out.append('inner-underscore')
+    if '__' in core:
+        out.append('double-underscore')
+    if any(c.isupper() for c in n):
+        out.append('upper-case')
+    if any(c.isdigit() for c in n):
+        out.append('digit')
+    if core in LAMBDA_FUNCS or core in ('let', 'len', 'select', 'def', 'with', 'dict', 'list'):
+        out.append('function-name')
+    if not is_keyword(n):
+        out.append('no-keyword')
+    return out or ['plain']
+
+
+def name_classes(e, out=None):
+    """classes of the names a program binds / reads / defines / uses as keys: ['var:inner-underscore', ..] (set)"""
+    if out is None:
+        out = set()
+    t = e[0]
+    if t == 'var':
+        n = e[1][1:]
+        if not n.isdigit() and n:
+            out.update('var:' + c for c in name_class(n))
+    elif t == 'member':
+        out.update('key:' + c for c in name_class(e[2]))
+    elif t == 'map':
+        for k, _ in e[1]:
+            if k[0] == 'kw':
+                out.update('key:' + c for c in name_class(k[1]))
+    elif t in ('call', 'method'):
+        f, args, kw = (e[1], e[2], e[3]) if t == 'call' else (e[2], e[3], e[4])
+        core = f.rstrip('_')
+        for k, _ in kw:
+            if k[0] == 'kw':
+                out.update(('key:' if core == 'dict' else 'kwarg:') + c for c in name_class(k[1]))
+        if core == 'def' and args and args[0][0] in ('kw', 'lit') and isinstance(args[0][1], str):
+            out.update('def:' + c for c in name_class(args[0][1]))
+        elif core == 'unpack':
+            for a in args:
+                if a[0] in ('kw', 'lit') and isinstance(a[1], str):
+                    out.update('unpack:' + c for c in name_class(a[1]))
+        elif f != core:
+            out.add('call:trailing-underscore')
+    for c, _ in children(e):
+        name_classes(c, out)
     return out
 
 
